@@ -12,8 +12,11 @@ dump → read → dump is a fixed point after at most one cycle (`raw_fixed_poin
 `Lemmas/Raw.lean`). Tables in `Gen.Raw.exempt` fail an obligation on the current source; they are proved defective
 here and reported by the check (finding / violation), never silently skipped.
 
-What print/parse does to a single value (`norm`: identity on names and flags, 14-digit rounding on doubles) enters as
-the hypothesis `Sys.ValOk`; it is exercised on the real code by the correspondence part of the check, not proved.
+What print/parse does to a single value (`norm`) enters as the hypothesis `Sys.ValOk`: identity on names and flags,
+and identity on doubles under the assumption that a double printed with 17 significant digits
+(`s_oss.precision(DBL_DIG + 2)`, checked by the translator in every `dump_raw`) is read back bit-exactly (IEEE-754
+round trip). It is exercised on the real code by the correspondence part of the check (the normal restore and the
+harness's own exact 17-digit restore must coincide), not proved.
 -/
 namespace PhreeqcVerif.Raw
 open PhreeqcVerif.Gen.Raw
